@@ -43,7 +43,7 @@ static bool protect_library_data(bool on) {
 
 static inline uint64_t now_ns() { struct timespec ts; clock_gettime(CLOCK_MONOTONIC, &ts); return (uint64_t)ts.tv_sec * 1000000000ull + (uint64_t)ts.tv_nsec; }
 
-enum Op { O_ADDBASE, O_REMOVEBASE, O_EQUALS, O_TOSTRING, O_MASKREQ, O_PARSE_NORM, O_COMPOSE, O_DISSECT, O_ESCAPE, O_FILE, O_IP4, O_PARSE_OWNER, O_PARSE_TEXT, O_TESTMM, O_NOPS };
+enum Op { O_ADDBASE, O_REMOVEBASE, O_EQUALS, O_TOSTRING, O_MASKREQ, O_PARSE_NORM, O_COMPOSE, O_DISSECT, O_ESCAPE, O_FILE, O_IP4, O_PARSE_OWNER, O_PARSE_TEXT, O_TESTMM, O_COMPLETE, O_NOPS };
 static const char* const OPN[] = {"addBase", "removeBase", "equals", "toString", "maskRequired", "parse+normalize", "composeQuery", "dissectQuery", "escape", "filename", "ip4", "parse+makeOwner", "parse(errorPos=NULL)", "testMemoryManager(shared)"};
 
 struct Rec { uint64_t t0, t1; uint16_t op; uint16_t i, j; uint32_t arg; uint64_t result; bool faulted; };
@@ -99,7 +99,7 @@ struct SharedMgr {
 
 template <class X> struct Shared {
     typedef typename X::Char Char; typedef typename X::QList QList;
-    SharedMgr smgr; UriMemoryManager* roMgr = nullptr;
+    SharedMgr smgr; UriMemoryManager* roMgr = nullptr; UriMemoryManager* roBackend[3] = {nullptr, nullptr, nullptr};     // backends with malloc+free / +realloc / all but reallocarray
     std::vector<std::unique_ptr<UriBox<X>>> uris; std::vector<Str> snaps;
     std::unique_ptr<Arena> arena; std::vector<typename X::Uri*> roUris; std::vector<const Char*> roText; std::vector<size_t> roTextLen;
     std::vector<const Char*> roStrings; std::vector<size_t> roStringLen; std::vector<QList*> roLists;
@@ -113,6 +113,8 @@ template <class X> struct Shared {
             for (size_t k = 0; k < L.size(); k++) { nodes[k].key = arena_text<X>(A, L[k].key, L[k].key + xstrlen<X>(L[k].key), true); nodes[k].value = L[k].value ? arena_text<X>(A, L[k].value, L[k].value + xstrlen<X>(L[k].value), true) : nullptr; nodes[k].next = k + 1 < L.size() ? &nodes[k + 1] : nullptr; if (!nodes[k].key) ok = false; }
             roLists.push_back(nodes); }
         roMgr = (UriMemoryManager*)A.alloc(sizeof(UriMemoryManager)); if (roMgr) memcpy(roMgr, &smgr.mm, sizeof(UriMemoryManager)); else ok = false;
+        for (int k = 0; k < 3; k++) { roBackend[k] = (UriMemoryManager*)A.alloc(sizeof(UriMemoryManager)); if (!roBackend[k]) { ok = false; break; } memcpy(roBackend[k], &smgr.mm, sizeof(UriMemoryManager));
+            roBackend[k]->reallocarray = nullptr; if (k < 2) roBackend[k]->calloc = nullptr; if (k < 1) roBackend[k]->realloc = nullptr; }
         if (!ok) return false;
         for (size_t i = 0; i < roUris.size(); i++) snaps[i] = deep_snapshot<X>(*roUris[i]);
         g_arena = arena.get(); crash_explain = explain_fault;
@@ -173,6 +175,15 @@ template <class X> uint64_t do_call(Shared<X>& sh, int op, unsigned i, unsigned 
     case O_PARSE_TEXT: {   // arbitrary shared text (mostly not a URI: the failing exits), optional error position absent
         SV s = S(i); Uri u; int rc = (arg & 1) ? X::ParseSingleUriEx(&u, s.data(), s.data() + s.size(), nullptr) : mm ? X::ParseSingleUriExMm(&u, s.data(), s.data() + s.size(), nullptr, mm) : X::ParseSingleUri(&u, s.c_str(), nullptr);
         out = fmt("%d", rc); if (rc == 0) { out += text_of(u); } if (mm && !(arg & 1)) X::FreeUriMembersMm(&u, mm); else X::FreeUriMembers(&u); break; }
+    case O_COMPLETE: {     // every thread completes a manager of its own over ONE shared backend (an input: the library only reads it), then uses it
+        UriMemoryManager own; memset(&own, 0, sizeof own); int rc = uriCompleteMemoryManager(&own, sh.roBackend[arg % 3]); out = fmt("%d", rc);
+        if (rc == URI_SUCCESS) { unsigned char* p = (unsigned char*)own.calloc(&own, 3, 5 + (arg & 7)); bool z = p != nullptr; for (int k = 0; p && k < 15; k++) z = z && p[k] == 0; if (p) memset(p, 0x5A, 15);
+            unsigned char* q = p ? (unsigned char*)own.reallocarray(&own, p, 7, 9) : nullptr; bool keep = q != nullptr; for (int k = 0; q && k < 15; k++) keep = keep && q[k] == 0x5A;
+            void* m2 = own.malloc(&own, 11); void* m3 = own.realloc(&own, m2, 400); own.free(&own, m3 ? m3 : m2); own.free(&own, q ? q : p);
+            size_t q2 = i % sh.roText.size(); const Char* st = sh.roText[q2]; static const Char none[1] = {0}; if (!st) st = none;
+            Uri u; int r2 = X::ParseSingleUriExMm(&u, st, st + (sh.roText[q2] ? sh.roTextLen[q2] : 0), nullptr, &own); if (r2 == 0) { int r3 = X::MakeOwnerMm(&u, &own); out += fmt(":%d", r3); } X::FreeUriMembersMm(&u, &own);
+            out += fmt(":%d%d:%d", (int)z, (int)keep, r2); }
+        break; }
     case O_TESTMM: { int rc = uriTestMemoryManager(sh.roMgr); out = fmt("%d", rc); break; }      // the library's self test on the manager other threads are using right now
     default: { SV s = S(i); unsigned char oct[4] = {0, 0, 0, 0}; int rc = X::ParseIpFourAddress(oct, s.data(), s.data() + s.size()); out = fmt("%d:%u.%u.%u.%u", rc, oct[0], oct[1], oct[2], oct[3]); break; }
     }
